@@ -70,10 +70,7 @@ def generate_jakes_samples(
         returned h will be (3, 2, NSamples).
     """
     # Generate time samples
-    t = np.arange(
-        current_time,  # Start time
-        NSamples * Ts + current_time,
-        Ts * 1.0000000001)
+    t = current_time + np.arange(int(NSamples)) * Ts
 
     if phi_l is None:
         if shape is None:
@@ -455,11 +452,10 @@ class JakesSampleGenerator(FadingSampleGenerator):
         if num_samples is None:
             num_samples = 1
 
-        # Generate a 1D numpy with the time samples
-        t = np.arange(
-            self._current_time,  # Start time
-            num_samples * self.Ts + self._current_time,
-            self.Ts * 1.0000000001)
+        # Generate a 1D numpy with the time samples. The number of samples
+        # comes from an integer range (a float range can yield one sample
+        # too many) and the sampling interval is exactly `Ts`.
+        t = self._current_time + np.arange(int(num_samples)) * self.Ts
 
         # Update the self._current_time variable with the value of the next
         # time sample that should be generated when _generate_time_samples
